@@ -51,8 +51,10 @@ def _quiet_fork_warning() -> None:
 
 PROP = "C19"
 TRIG_DEFAULT = "inputDefaultIntrospection"  # C19-F1  (Lean: trigDefaultLost)
-TRIG_TRANSPORT = "transportExc"  # C19-F2  (Lean: trigTransportExc)
+# C19-F2 ("transportExc": every exception of httpx.post but InvalidURL escaped) was repaired by /repo 23ffd85: it has no
+# trigger any more - a TransportError that escapes again is a Failure with trigger None (-> VIOLATION).
 TRIG_REJECTED = "dataRejected"  # C19-F3  (Lean: trigDataRejected)
+TRIG_REQUEST_EXC = "requestExcNotTransport"  # C19-F6  (Lean: Introspect.trigRequestExcUntyped; twin: trig_request_exc_untyped)
 TRIG_DEPRECATED = "deprecatedInputValue"  # C19-F4  (Lean: trigDeprecatedInput)
 TRIG_REPEATABLE = "repeatableDirective"  # C19-F5  (no model: graphql-core validation)
 
@@ -85,12 +87,20 @@ def patched_httpx(handler: Callable[[Any], Any]) -> Iterator[Dict[str, Any]]:
             return handler(request)
 
     old = _client.HTTPTransport
-    saved_env = {k: os.environ.pop(k) for k in list(os.environ) if k.lower() in ("http_proxy", "https_proxy", "all_proxy")}
     _client.HTTPTransport = FakeTransport  # type: ignore
     try:
-        yield rec
+        with no_proxy_env():
+            yield rec
     finally:
         _client.HTTPTransport = old  # type: ignore
+
+
+@contextlib.contextmanager
+def no_proxy_env() -> Iterator[None]:
+    saved_env = {k: os.environ.pop(k) for k in list(os.environ) if k.lower() in ("http_proxy", "https_proxy", "all_proxy")}
+    try:
+        yield
+    finally:
         os.environ.update(saved_env)
 
 
@@ -456,12 +466,93 @@ def body_table() -> List[Tuple[str, bytes, bool]]:
     ]
 
 
-RAISED = ["ConnectError", "ConnectTimeout", "ReadTimeout", "UnsupportedProtocol", "ProxyError", "RemoteProtocolError",
-          "TooManyRedirects", "InvalidURL", "OSError", "ValueError", "DecodingError"]
 # URLs that httpx itself refuses to parse (httpx.InvalidURL is raised inside httpx.post, before any transport)
-UNPARSEABLE_URLS = ["http://a:b/", "http://[::1", "http://\x00", "http://exa\nmple.com/"]
-# URLs that the REAL transport refuses or cannot reach without any network access (finding C19-F2)
-UNREACHABLE_URLS = ["example.com/graphql", "ftp://example.com/graphql", "//example.com/graphql", "http://127.0.0.1:1/graphql"]
+UNPARSEABLE_URLS = ["http://a:b/", "http://[::1", "http://\x00", "http://exa\nmple.com/", "http://h:99999999/", "http://[zz]/g"]
+# URLs that the REAL transport refuses or cannot reach without any network access (region of the repaired finding C19-F2)
+UNREACHABLE_URLS = ["example.com/graphql", "ftp://example.com/graphql", "//example.com/graphql", "http://127.0.0.1:1/graphql",
+                    "localhost:1/graphql", "ws://127.0.0.1:1/graphql", "/graphql", "graphql", "https://127.0.0.1:1/graphql",
+                    "http://[::1]:1/graphql", "HTTP://127.0.0.1:1/graphql", "file:///etc/hostname", "http:///graphql"]
+EXC_MESSAGES = ["simulated", "", "[Errno 111] Connection refused", "with {braces} {0} %s %(x)s", "ünï ✓", "line1\nline2", " padded ",
+                "Request URL is missing an 'http://' or 'https://' protocol.", "timed out", "x" * 300, "\"quoted\" 'q'", "\\back\\slash"]
+
+
+def qualname(cls: type) -> str:
+    return f"{cls.__module__}.{cls.__qualname__}"
+
+
+class TransportError(Exception):
+    """a foreign class that merely has the NAME of httpx.TransportError (qualified: harness.c19.TransportError): escapes"""
+
+
+_EXC_TABLE: Dict[str, Any] = {}
+
+
+def exception_table() -> List[Tuple[str, type, str]]:
+    """(label, class, family): every exception class the INSTALLED httpx exports (enumerated, not hard-coded), user-defined
+    subclasses (single and multiple inheritance, both clause orders), and foreign exceptions a custom transport may raise.
+    family: invalid-url | transport (the region of the repaired finding C19-F2) | request-other (finding C19-F6) | foreign."""
+    if "t" in _EXC_TABLE:
+        return _EXC_TABLE["t"]
+    import httpx
+
+    classes: List[type] = []
+    for n in sorted(dir(httpx)):
+        v = getattr(httpx, n)
+        if isinstance(v, type) and issubclass(v, BaseException):
+            classes.append(v)
+    custom = [
+        type("VerifSlowConnect", (httpx.ConnectTimeout,), {"__module__": "verifapp"}),
+        type("VerifUrlAndConnect", (httpx.InvalidURL, httpx.ConnectError), {"__module__": "verifapp"}),
+        type("VerifConnectAndUrl", (httpx.ConnectError, httpx.InvalidURL), {"__module__": "verifapp"}),
+        type("VerifTransportAndOSError", (httpx.ReadError, ConnectionResetError), {"__module__": "verifapp"}),
+        type("VerifDecodingSub", (httpx.DecodingError,), {"__module__": "verifapp"}),
+        type("VerifPlainTransport", (httpx.TransportError,), {"__module__": "verifapp"}),
+        TransportError,
+        OSError, ConnectionRefusedError, TimeoutError, ValueError, RuntimeError, KeyError, LookupError, Exception,
+    ]
+    table = [(qualname(c), c, exc_family(c)) for c in classes + custom]
+    _EXC_TABLE["t"] = table
+    return table
+
+
+def exc_family(cls: type) -> str:
+    import httpx
+
+    if issubclass(cls, httpx.InvalidURL):
+        return "invalid-url"
+    if issubclass(cls, httpx.TransportError):
+        return "transport"
+    if issubclass(cls, httpx.RequestError):
+        return "request-other"
+    return "foreign"
+
+
+def listed_failure_exc(cls: type) -> bool:
+    """twin of Lean `Introspect.listedFailureExc`: the exceptions of httpx.post the property lists as introspection failures"""
+    import httpx
+
+    return issubclass(cls, (httpx.InvalidURL, httpx.TransportError, httpx.RequestError))
+
+
+def trig_request_exc_untyped(cls: type) -> bool:
+    """twin of Lean `Introspect.trigRequestExcUntyped` (finding C19-F6)"""
+    import httpx
+
+    return issubclass(cls, httpx.RequestError) and not issubclass(cls, (httpx.InvalidURL, httpx.TransportError))
+
+
+def make_exception(cls: type, message: str) -> BaseException:
+    import httpx
+
+    try:
+        return cls(message)
+    except TypeError:
+        pass
+    try:  # httpx.HTTPStatusError(message, *, request, response)
+        req = httpx.Request("POST", "http://verif.test/graphql")
+        return cls(message, request=req, response=httpx.Response(500, request=req))
+    except TypeError:
+        return cls()  # httpx.StreamConsumed() ...: the message is fixed by the class
 
 
 def classify_url_outcome(fn: Callable[[], Any]) -> Dict[str, Any]:
@@ -472,11 +563,14 @@ def classify_url_outcome(fn: Callable[[], Any]) -> Dict[str, Any]:
         return {"o": "schema"}
     except IntrospectionError as e:
         msg = str(e)
+        cause = qualname(type(e.__cause__)) if e.__cause__ is not None else None
         if msg.startswith("Invalid remote schema url"):
-            return {"o": "introspectionError", "kind": "invalidUrl"}
+            return {"o": "introspectionError", "kind": "invalidUrl", "cause": cause}
         m = re.match(r"Failure of remote schema introspection. HTTP status code: (\d+)", msg)
         if m:
             return {"o": "introspectionError", "kind": "httpStatus", "status": int(m.group(1))}
+        if msg.startswith("Failure of remote schema introspection: "):
+            return {"o": "introspectionError", "kind": "transport", "text": msg[len("Failure of remote schema introspection: "):], "cause": cause}
         if msg.startswith("Introspection result is not a valid json"):
             return {"o": "introspectionError", "kind": "notJson"}
         if msg.startswith("Invalid introspection result format"):
@@ -487,21 +581,23 @@ def classify_url_outcome(fn: Callable[[], Any]) -> Dict[str, Any]:
             return {"o": "introspectionError", "kind": "badData"}
         return {"o": "introspectionError", "kind": "?" + msg[:60]}
     except Exception as e:  # noqa: BLE001
-        return {"o": "other", "exc": type(e).__name__}
+        return {"o": "other", "exc": type(e).__name__, "qual": qualname(type(e)), "msg": str(e)}
 
 
-def observe_remote(status: Optional[int], content: Optional[bytes], raised: Optional[str], url: str = "http://verif.test/graphql") -> Dict[str, Any]:
+def observe_remote(status: Optional[int], content: Optional[bytes], raised: Optional[Callable[[], BaseException]],
+                   url: str = "http://verif.test/graphql", extra_headers: Optional[Dict[str, str]] = None) -> Dict[str, Any]:
+    """`raised`: factory of the exception the transport raises instead of answering"""
     import httpx
 
     S = _schema_mod()
 
     def handler(request: Any) -> Any:
         if raised is not None:
-            cls = getattr(httpx, raised, None) or {"OSError": OSError, "ValueError": ValueError}[raised]
-            raise cls("simulated")
+            raise raised()
         # a 3xx answer points somewhere else: httpx.post must not follow it (follow_redirects is off by default)
-        headers = {"location": "http://verif.test/elsewhere"} if status is not None and 300 <= status <= 399 else None
-        return httpx.Response(status, content=content, headers=headers)
+        headers = {"location": "http://verif.test/elsewhere"} if status is not None and 300 <= status <= 399 else {}
+        headers.update(extra_headers or {})
+        return httpx.Response(status, content=content, headers=headers or None)
 
     with patched_httpx(handler) as rec:
         out = classify_url_outcome(lambda: S.get_graphql_schema_from_url(url))
@@ -537,12 +633,16 @@ def model_remote_equal(impl: Dict[str, Any], model: Dict[str, Any], body: Any = 
         return impl["o"] in ("schema", "other")
     if model["o"] != impl["o"]:
         return False
-    if model["o"] == "other":
+    if model["o"] == "other":  # builder exceptions by class name, escaping exceptions of httpx.post by qualified name + str()
+        if "msg" in model:
+            return model["exc"] == impl.get("qual") and model["msg"] == impl.get("msg")
         return model["exc"] == impl["exc"]
     if model["kind"] != impl["kind"]:
         return False
     if model["kind"] == "httpStatus":
         return model["status"] == impl["status"]
+    if model["kind"] == "transport":  # f"Failure of remote schema introspection: {exc}"
+        return model["msg"] == impl["text"]
     if model["kind"] == "errors":  # the message is f"Introspection errors: {errors}" of the decoded member
         sent = body.get("errors") if isinstance(body, dict) else None
         return common.same_json(wire.dec(model["errors"]), sent) and impl["text"] == str(sent)
@@ -580,22 +680,28 @@ def check_remote(ctx: Ctx, st: Optional[LeanStatus], res: Result) -> None:
         if ok:
             line["body"] = wire.enc(body)
         lines.append(line)
-    raised_cases = [{"raised": r} for r in RAISED]
-    lines += [{"op": "introspect", "raised": r["raised"]} for r in raised_cases]
+    raised_cases = gen_raised_cases(ctx, rng)
+    lines += [{"op": "introspect", "raised": {"mro": r["mro"], "msg": r["msg"]}} for r in raised_cases]
     url_cases = [{"url": u} for u in UNPARSEABLE_URLS]
-    lines += [{"op": "introspect", "raised": "InvalidURL"} for _ in url_cases]
+    import httpx
+
+    invalid_url_mro = [qualname(c) for c in httpx.InvalidURL.__mro__]
+    lines += [{"op": "introspect", "raised": {"mro": invalid_url_mro, "msg": ""}} for _ in url_cases]
     model = common.run_driver(PROP, lines) if (st is not None and st.driver_ok) else None
 
     def judge(i: int, inp: Dict[str, Any], impl: Dict[str, Any], failure_class: Optional[str], judged: bool, trigger: Optional[str]) -> None:
         if model is not None and not model_remote_equal(impl, model[i], inp.get("_body")):
-            res.mismatches.append(Mismatch("introspect", inp, impl, model[i]))
+            res.mismatches.append(Mismatch("introspect", {k: v for k, v in inp.items() if k != "_body"}, impl, model[i]))
         if not judged:
             return
         if failure_class is not None:
             if impl["o"] == "schema":
                 res.failures.append(Failure("failed-introspection-accepted", None, inp, f"{failure_class}: a schema was returned"))
             elif impl["o"] == "other":
-                sig = "untyped-transport-exception" if trigger == TRIG_TRANSPORT else "untyped-builder-exception"
+                if failure_class.startswith("raised:"):
+                    sig = "untyped-request-exception" if trigger == TRIG_REQUEST_EXC else "untyped-transport-exception"
+                else:
+                    sig = "untyped-builder-exception"
                 res.failures.append(Failure(sig, trigger, inp, f"{failure_class}: {impl['exc']} escapes instead of IntrospectionError"))
         elif impl["o"] != "schema":
             res.failures.append(Failure("valid-introspection-refused", None, inp, json.dumps(impl)[:200]))
@@ -618,12 +724,28 @@ def check_remote(ctx: Ctx, st: Optional[LeanStatus], res: Result) -> None:
             if c["label"] in ("valid", "data-empty-object", "not-json") and c["status"] in (200, 503) and len(res.samples) < 6:
                 res.sample({"observation": "introspect", "input": {"status": c["status"], "body": c["label"]}, "impl": impl, "model": model[i] if model else None})
         base = len(cases)
+        sampled = set()
         for j, r in enumerate(raised_cases):
-            impl = observe_remote(None, None, r["raised"])
-            inp = {"kind": "remote-raised", "raised": r["raised"]}
-            judge(base + j, inp, impl, "transport:" + r["raised"], True, TRIG_TRANSPORT if r["raised"] != "InvalidURL" else None)
-            res.seen(["raised", r["raised"]])
-            res.count("remote:raised:" + impl["o"])
+            cls = r["cls"]
+            impl = observe_remote(None, None, lambda: make_exception(cls, r["msg_arg"]))
+            inp = {"kind": "remote-raised", "raised": r["label"], "message": r["msg_arg"]}
+            listed = listed_failure_exc(cls)
+            trig = TRIG_REQUEST_EXC if trig_request_exc_untyped(cls) else None
+            judge(base + j, inp, impl, ("raised:" + r["label"]) if listed else None, listed, trig)
+            if model is not None and (model[base + j].get("listed") is not listed or model[base + j].get("trigRequestExcUntyped") is not (trig is not None)):
+                res.mismatches.append(Mismatch("introspect-trigger", inp, {"listed": listed, "trigRequestExcUntyped": trig is not None},
+                                               {k: model[base + j].get(k) for k in ("listed", "trigRequestExcUntyped")}))
+            if impl["o"] == "introspectionError" and impl.get("cause") != r["label"]:
+                res.mismatches.append(Mismatch("introspect-cause", inp, impl, {"cause": r["label"]}))
+            res.seen(["raised", r["label"], r["msg_arg"]], nontrivial=r["family"] != "foreign")
+            res.count("remote:raised:family:" + r["family"])
+            res.count("remote:raised:outcome:" + r["family"] + ":" + impl["o"] + (":" + impl.get("kind", "") if impl["o"] == "introspectionError" else ""))
+            if r["family"] not in sampled and len(res.samples) < 12:
+                sampled.add(r["family"])
+                res.sample({"observation": "introspect", "input": inp, "impl": impl, "model": model[base + j] if model else None})
+        res.extra["raised_cases"] = len(raised_cases)
+        res.extra["raised_cases_in_repaired_F2_region"] = sum(1 for r in raised_cases if r["family"] == "transport")
+        res.extra["httpx_transport_error_classes"] = sorted({r["label"] for r in raised_cases if r["family"] == "transport" and r["label"].startswith("httpx.")})
         base += len(raised_cases)
         for j, u in enumerate(url_cases):
             impl = observe_remote(200, json.dumps({"data": valid_data()}).encode(), None, url=u["url"])
@@ -636,6 +758,30 @@ def check_remote(ctx: Ctx, st: Optional[LeanStatus], res: Result) -> None:
         res.mismatches.append(Mismatch("introspect", {"stage": "observer"}, f"observer: {e!r}", None))
 
 
+def gen_raised_cases(ctx: Ctx, rng: random.Random) -> List[Dict[str, Any]]:
+    """every class of `exception_table()` once with a plain message, then random (class, message) pairs weighted towards
+    the TransportError family - the region of the repaired finding C19-F2, where the property is claimed now"""
+    table = exception_table()
+    by_family: Dict[str, List[Tuple[str, type, str]]] = {}
+    for row in table:
+        by_family.setdefault(row[2], []).append(row)
+    picks: List[Tuple[Tuple[str, type, str], str]] = [(row, "simulated") for row in table]
+    weights = [("transport", 0.6), ("invalid-url", 0.1), ("request-other", 0.12), ("foreign", 0.18)]
+    for _ in range(ctx.budget(120, 1500)):
+        x, fam = rng.random(), "transport"
+        for name, w in weights:
+            if x < w:
+                fam = name
+                break
+            x -= w
+        picks.append((rng.choice(by_family.get(fam) or table), rng.choice(EXC_MESSAGES)))
+    out = []
+    for (label, cls, family), msg in picks:
+        exc = make_exception(cls, msg)
+        out.append({"label": label, "cls": cls, "family": family, "msg_arg": msg, "msg": str(exc), "mro": [qualname(c) for c in cls.__mro__]})
+    return out
+
+
 def _decode(content: bytes) -> Tuple[bool, Any]:
     try:
         return True, json.loads(content)
@@ -643,21 +789,120 @@ def _decode(content: bytes) -> Tuple[bool, Any]:
         return False, None
 
 
-def replay_unreachable(res: Result) -> bool:
-    """finding C19-F2 on the REAL transport (no network needed: httpcore refuses the scheme / the local port refuses)"""
+def judge_real_transport(inp: Dict[str, Any], impl: Dict[str, Any], res: Result, expect: str = "failure") -> None:
+    """oracle for one exchange over the REAL httpx transport. expect: failure (must be an IntrospectionError) | schema"""
+    if expect == "schema":
+        if impl["o"] != "schema":
+            res.failures.append(Failure("valid-introspection-refused", None, inp, json.dumps(impl)[:200]))
+        return
+    if impl["o"] == "schema":
+        res.failures.append(Failure("failed-introspection-accepted", None, inp, "a schema was returned"))
+    elif impl["o"] == "other":
+        import httpx
+
+        cls = getattr(httpx, impl["exc"], None) if impl.get("qual", "").startswith("httpx.") else None
+        if cls is not None and trig_request_exc_untyped(cls):
+            res.failures.append(Failure("untyped-request-exception", TRIG_REQUEST_EXC, inp, f"{impl['qual']} escapes instead of IntrospectionError: {impl.get('msg', '')[:120]}"))
+        else:  # the repaired finding C19-F2 is back (or something new escapes): no trigger
+            res.failures.append(Failure("untyped-transport-exception", None, inp, f"{impl.get('qual', impl['exc'])} escapes instead of IntrospectionError: {impl.get('msg', '')[:120]}"))
+
+
+def observe_real_url(url: str) -> Dict[str, Any]:
     S = _schema_mod()
-    reproduces = False
-    for u in UNREACHABLE_URLS:
-        impl = classify_url_outcome(lambda: S.get_graphql_schema_from_url(u))
-        res.count("remote:unreachable-url:" + impl["o"] + ":" + impl.get("exc", impl.get("kind", "")))
-        res.seen(["unreachable", u])
-        if impl["o"] == "other":
-            reproduces = True
-            res.failures.append(Failure("untyped-transport-exception", TRIG_TRANSPORT, {"kind": "remote-url-real", "url": u},
-                                        f"{impl['exc']} escapes instead of IntrospectionError"))
-        elif impl["o"] == "schema":
-            res.failures.append(Failure("failed-introspection-accepted", None, {"kind": "remote-url-real", "url": u}, "a schema was returned"))
-    return reproduces
+    with no_proxy_env():
+        return classify_url_outcome(lambda: S.get_graphql_schema_from_url(url))
+
+
+LOOPBACK_BEHAVIOURS = ["close", "garbage", "truncated-body", "bad-gzip", "bad-deflate", "half-status-line", "status-503", "valid"]
+
+
+def loopback_response(behaviour: str) -> bytes:
+    def http(status: str, body: bytes, extra: str = "", length: Optional[int] = None) -> bytes:
+        n = len(body) if length is None else length
+        return (f"HTTP/1.1 {status}\r\ncontent-type: application/json\r\n{extra}content-length: {n}\r\nconnection: close\r\n\r\n").encode() + body
+
+    ok = json.dumps({"data": valid_data()}).encode()
+    return {
+        "close": b"",
+        "garbage": b"\x00\x01 THIS IS NOT HTTP\r\n\r\n",
+        "half-status-line": b"HTTP/1.1 2",
+        "truncated-body": http("200 OK", ok[:20], length=len(ok)),
+        "bad-gzip": http("200 OK", b"this is not gzip", "content-encoding: gzip\r\n"),
+        "bad-deflate": http("200 OK", b"\xff\xff not deflate either", "content-encoding: deflate\r\n"),
+        "status-503": http("503 Service Unavailable", b"{}"),
+        "valid": http("200 OK", ok),
+    }[behaviour]
+
+
+@contextlib.contextmanager
+def loopback_server(behaviour: str) -> Iterator[str]:
+    """one-shot HTTP/1.1 endpoint on 127.0.0.1 (ephemeral port): reads one request, answers with `loopback_response`, closes"""
+    import socket
+    import threading
+
+    payload = loopback_response(behaviour)
+    srv = socket.socket(socket.AF_INET, socket.SOCK_STREAM)
+    srv.bind(("127.0.0.1", 0))
+    srv.listen(4)
+    srv.settimeout(10)
+
+    def serve() -> None:
+        try:
+            conn, _ = srv.accept()
+        except OSError:
+            return
+        with conn:
+            conn.settimeout(10)
+            try:
+                buf = b""
+                while b"\r\n\r\n" not in buf:
+                    chunk = conn.recv(65536)
+                    if not chunk:
+                        break
+                    buf += chunk
+                head, _, rest = buf.partition(b"\r\n\r\n")
+                m = re.search(rb"content-length:\s*(\d+)", head, re.I)
+                need = int(m.group(1)) if m else 0
+                while len(rest) < need:
+                    chunk = conn.recv(65536)
+                    if not chunk:
+                        break
+                    rest += chunk
+                if payload:
+                    conn.sendall(payload)
+            except OSError:
+                pass
+
+    t = threading.Thread(target=serve, daemon=True)
+    t.start()
+    try:
+        yield f"http://127.0.0.1:{srv.getsockname()[1]}/graphql"
+    finally:
+        srv.close()
+        t.join(10)
+
+
+def observe_loopback(behaviour: str) -> Dict[str, Any]:
+    with loopback_server(behaviour) as url:
+        return observe_real_url(url)
+
+
+def check_real_transport(res: Result) -> None:
+    """the REAL httpx transport, no patch, no network: URLs it refuses or cannot reach (region of the repaired finding C19-F2:
+    every one must come out as IntrospectionError now) and a loopback endpoint that misbehaves in each way a transport can see"""
+    try:
+        for u in UNREACHABLE_URLS:
+            impl = observe_real_url(u)
+            res.count("remote:real-url:" + impl["o"] + ":" + (impl.get("cause") or impl.get("qual") or impl.get("kind", "")))
+            res.seen(["unreachable", u])
+            judge_real_transport({"kind": "remote-url-real", "url": u}, impl, res)
+        for bh in LOOPBACK_BEHAVIOURS:
+            impl = observe_loopback(bh)
+            res.count("remote:loopback:" + bh + ":" + impl["o"] + ":" + (impl.get("cause") or impl.get("qual") or impl.get("kind", "")))
+            res.seen(["loopback", bh])
+            judge_real_transport({"kind": "remote-loopback", "behaviour": bh}, impl, res, expect="schema" if bh == "valid" else "failure")
+    except (AttributeError, ImportError, TypeError) as e:
+        res.mismatches.append(Mismatch("introspect", {"stage": "real-transport observer"}, f"observer: {e!r}", None))
 
 
 # --------------------------------------------------------------------------------------------
@@ -1877,6 +2122,14 @@ def facts_from_sdl(sdl: str) -> Dict[str, Any]:
     return {"defs": defs, "dep_args": dep_args, "repeatable": repeatable, "dep_targets": dep_targets, "emptied_inputs": emptied}
 
 
+_REPLAY_VERBOSE = [False]
+
+
+def _show(impl: Dict[str, Any]) -> None:
+    if _REPLAY_VERBOSE[0]:
+        print("observed:", json.dumps(impl)[:300])
+
+
 def replay_input(ctx: Ctx, inp: Dict[str, Any]) -> Result:
     """run ONE concrete input against the real code; failures (with their trigger classification) in the result"""
     res = Result()
@@ -1903,20 +2156,33 @@ def replay_input(ctx: Ctx, inp: Dict[str, Any]) -> Result:
         elif not fc and impl["o"] != "schema":
             res.failures.append(Failure("valid-introspection-refused", None, inp, json.dumps(impl)[:200]))
     elif kind == "remote-raised":
-        impl = observe_remote(None, None, inp["raised"])
+        row = next((r for r in exception_table() if r[0] == inp["raised"]), None)
+        if row is None:
+            raise common.Infra(f"unknown exception class {inp['raised']!r} (not exported by the installed httpx / not in the table)")
+        cls = row[1]
+        impl = observe_remote(None, None, lambda: make_exception(cls, inp.get("message", "simulated")))
+        _show(impl)
+        if listed_failure_exc(cls) and impl["o"] == "other":
+            f6 = trig_request_exc_untyped(cls)
+            res.failures.append(Failure("untyped-request-exception" if f6 else "untyped-transport-exception", TRIG_REQUEST_EXC if f6 else None, inp,
+                                        f"{impl['qual']} escapes instead of IntrospectionError"))
+        elif listed_failure_exc(cls) and impl["o"] == "schema":
+            res.failures.append(Failure("failed-introspection-accepted", None, inp, "a schema was returned"))
+    elif kind == "remote-url":
+        impl = observe_remote(200, json.dumps({"data": valid_data()}).encode(), None, url=inp["url"])
+        _show(impl)
         if impl["o"] == "other":
-            res.failures.append(Failure("untyped-transport-exception", TRIG_TRANSPORT, inp, f"{impl['exc']} escapes instead of IntrospectionError"))
-    elif kind in ("remote-url", "remote-url-real"):
-        S = _schema_mod()
-        if kind == "remote-url":
-            impl = observe_remote(200, json.dumps({"data": valid_data()}).encode(), None, url=inp["url"])
-        else:
-            impl = classify_url_outcome(lambda: S.get_graphql_schema_from_url(inp["url"]))
-        if impl["o"] == "other":
-            res.failures.append(Failure("untyped-transport-exception", TRIG_TRANSPORT if kind == "remote-url-real" else None, inp,
-                                        f"{impl['exc']} escapes instead of IntrospectionError"))
+            res.failures.append(Failure("untyped-transport-exception", None, inp, f"{impl['exc']} escapes instead of IntrospectionError"))
         elif impl["o"] == "schema":
             res.failures.append(Failure("failed-introspection-accepted", None, inp, "a schema was returned"))
+    elif kind == "remote-url-real":
+        impl = observe_real_url(inp["url"])
+        _show(impl)
+        judge_real_transport(inp, impl, res)
+    elif kind == "remote-loopback":
+        impl = observe_loopback(inp["behaviour"])
+        _show(impl)
+        judge_real_transport(inp, impl, res, expect="schema" if inp["behaviour"] == "valid" else "failure")
     elif kind == "packages":
         case = {"idx": -1, "sdl": inp["sdl"], "sdl_plain": inp.get("sdl_plain", inp["sdl"]), "queries": inp["queries"],
                 "split": inp.get("split") or {"schema.graphql": inp["sdl"]}, "config": inp.get("config", {})}
@@ -2029,17 +2295,18 @@ def run(ctx: Ctx, st: Optional[LeanStatus]) -> Result:
     res = Result()
     res.rule = (
         "correspondence: suffix table (fixed names + all names over {a . g q l} up to length 5/6), random directory trees on disk, "
-        "the complete introspection table (%d statuses x %d body classes + %d transport exceptions + unparseable URLs) plus random bodies, "
+        "the complete introspection table (%d statuses x %d body classes + every exception class of the installed httpx, user subclasses and foreign exceptions (%d classes) "
+        "with random messages, weighted 60%% into the TransportError family + unparseable URLs) plus random bodies, the real transport on unreachable URLs and a misbehaving loopback endpoint, "
         "random source configurations through the real main.client, random input-centric schemas through both real builders; "
         "oracle: random schemas + operations generated from three (thorough: four) sources and compared package by package. "
         "distinct = distinct inputs; non-trivial = a name with a dot, a tree loading > 1 definition, a table cell or a 2xx JSON object body, "
-        "a configuration with headers or a refusal, every schema" % (len(STATUSES), len(body_table()), len(RAISED))
+        "a configuration with headers or a refusal, every schema" % (len(STATUSES), len(body_table()), len(exception_table()))
     )
     fp = common.fingerprints(ctx, FINGERPRINT_ITEMS)
     res.extra["fingerprints"] = fp
     replay_corpus(ctx, res)
     ctx.log(f"witnesses: {res.witness_status}")
-    res.witness_status.setdefault("C19-F2", "reproduces" if replay_unreachable(res) else "gone")
+    check_real_transport(res)
     check_suffixes(ctx, st, res)
     check_trees(ctx, st, res, ctx.budget(400, 3000))
     check_remote(ctx, st, res)
@@ -2057,7 +2324,10 @@ def run(ctx: Ctx, st: Optional[LeanStatus]) -> Result:
         "result models, client methods and operation strings across sources are compared by the package oracle only; the Lean side "
         "contributes ast_uses_confined (no generator outside the input-default path reads a source-sensitive attribute)",
         "finding C19-F5 (repeatable directives) and the deprecated-argument half of C19-F4 live in graphql-core's validation: witness replay only",
-        "httpx: URL parsing, what raises InvalidURL, redirects not followed by httpx.post - observed through a transport-level patch and the real transport",
+        "httpx: URL parsing, what raises InvalidURL, redirects not followed by httpx.post, which exception class the real transport raises for which failure "
+        "- observed through a transport-level patch, the real transport on unreachable URLs and a loopback endpoint; the class hierarchy of httpx reaches the model as the MRO of each exception",
+        "exceptions of httpx.post outside httpx.InvalidURL / httpx.RequestError (foreign exceptions of a custom transport, UnicodeEncodeError for a non-ASCII header value) are outside the "
+        "property: compared with the model (they escape unchanged), never judged",
     ]
     res.assumptions += [
         "for individually parseable type-system documents, parse('\\n'.join(texts)).definitions is the concatenation of the parts' definitions (checked on every tree of this run)",
@@ -2085,6 +2355,7 @@ def replay(ctx: Ctx, payload: Dict[str, Any]) -> int:
     if not inp:
         print(json.dumps(payload, indent=1)[:3000])
         return 1
+    _REPLAY_VERBOSE[0] = True
     res = replay_input(ctx, inp)
     findings = common.load_findings(PROP)
     rc = 0
